@@ -48,13 +48,17 @@ class ConfirmCtx:
             return True
         if self.tried.get(key, 0) >= 3 * self.attempts:
             return False
-        for _ in range(self.attempts):
+        variants = []
+        if case.get('source_reduced'):
+            variants.append(dict(case, source=case['source_reduced'], name=case['name'] + 'r'))   # fast: only that function
+        variants.extend([case] * self.attempts)
+        for c in variants:
             self.tried[key] = self.tried.get(key, 0) + 1
             try:
-                r = e2.replay(_Quiet(self._ctx), case)
+                r = e2.replay(_Quiet(self._ctx), c)
             except Exception as e:      # a harness problem must not hide a crash
                 r = 'replay failed: %r' % (e,)
-            if r:
+            if r and not str(r).startswith('does not build'):
                 self.confirmed.add(key)
                 return True
         return False
@@ -66,3 +70,184 @@ class ConfirmCtx:
             self._ctx.log('crash not reproduced in %d replays (not reported): %s' % (self.attempts, str(what)[:160]))
             return False
         return self._ctx.violation(key, what, case)
+
+
+# ---------------------------------------------------------------------------------------------------------------------
+# Differential sweep with a crash-storm breaker.  Same contract as vlib.e2.run_diff (which it reuses for building, the
+# child-side sweep and the replay cases); only the treatment of crashed sweep groups differs: e2 re-runs EVERY evaluation
+# of a crashed group in its own child, which does not terminate in reasonable time when a change makes thousands of
+# evaluations crash.  Here a crashed group is refined function by function (run_cases restarts a child after each crash),
+# crashing functions input by input, and as soon as `storm` crashes with the same storm class (default: the normalised
+# violation key, which for crashes depends on the program class only) were seen, further functions / inputs of that class
+# are skipped.  Skipped work is counted and the caller marks the evidence `exhaustive: false`.
+import collections
+from vlib import runner, farm
+from vlib.diff import short
+
+
+def run_diff(ctx, mods, keyfn=e2.default_key, on_build_failure='violation', workdir=None, timeout=900, reach=None,
+             storm=5, stormkey=None, max_crash_reports=120):
+    workdir = workdir or ctx.workdir('e2')
+    built, failures = e2.build_all(ctx, mods, workdir)
+    stats = {'evaluations': 0, 'pairs': 0, 'programs': 0, 'modules_built': len(built), 'mismatches': 0,
+             'crashes': 0, 'build_failures': len(failures), 'rejected': [],
+             'storm': {'limit_per_class': storm, 'classes_saturated': [], 'functions_skipped': 0, 'evaluations_skipped': 0}}
+    ctx.log('built %d modules (%d failures)' % (len(built), len(failures)))
+    for m, r in failures:
+        tags = [f.tag for f in m.funcs]
+        if on_build_failure == 'violation':
+            ctx.violation('build-failure|%s|%s' % (r.stage, tags[0] if tags else m.name),
+                          'program does not build (%s): %s' % (r.stage, r.errors[-800:]),
+                          {'kind': 'build', 'source': m.source, 'ext': m.ext, 'directives': m.directives,
+                           'cflags': list(m.cflags), 'cplus': m.cplus, 'stage': r.stage, 'errors': r.errors[-3000:]})
+        else:
+            stats['rejected'].append((tags, r.stage, r.errors[-500:]))
+    if reach:
+        found = {k: 0 for k in reach}
+        for m in built:
+            try:
+                with open(m.c_file, encoding='utf-8', errors='replace') as f:
+                    txt = f.read()
+            except OSError:
+                continue
+            for k in reach:
+                if k in txt:
+                    found[k] += 1
+        stats['reach'] = found
+        stats['reach_gaps'] = sorted(k for k, v in found.items() if not v)
+        for k in stats['reach_gaps']:
+            ctx.log('WARN reach gap: no built module mentions %s' % k)
+    cases, owners = [], []
+    for m in built:
+        light = m.light()
+        fl = m.funcs
+        stats['programs'] += len(fl)
+        total = sum(len(m.input_sets[f.inputs]) for f in fl)
+        target = max(1, total // 4)
+        cur, curn = [], 0
+        for f in fl:
+            ins = m.input_sets[f.inputs]
+            cur.append((f.name, f.tag, ins)); curn += len(ins)
+            if curn >= target:
+                cases.append((light, cur)); owners.append(m); cur, curn = [], 0
+        if cur:
+            cases.append((light, cur)); owners.append(m)
+    results = runner.run_cases(e2._sweep, cases, chunk=1, timeout=timeout, scratch=ctx.scratch)
+
+    def handle(m, r):
+        stats['evaluations'] += r['evals']
+        stats['pairs'] += r['pairs']
+        stats['mismatches'] += len(r['mismatches']) + r['more']
+        for fname, tag, inp, exp, got in r['mismatches']:
+            ctx.violation(keyfn(tag, inp, exp, got),
+                          '%s%r: expected %s got %s' % (tag, tuple(inp), short(exp), short(got)),
+                          e2._replay_case(m, fname, tag, inp, exp, got))
+
+    def harness(m, r):
+        ctx.violation('harness-exc|%s' % m.name, 'driver exception: %s' % r[1][-1500:],
+                      {'kind': 'harness', 'source': m.source, 'trace': r[1][-3000:]})
+
+    part_src = {}
+    for m in built:
+        for p in m.parts:
+            for f in p.funcs:
+                part_src[(m.name, f.name)] = p.src
+
+    def crash_case(m, fname, tag, inp, got):
+        c = e2._replay_case(m, fname, tag, inp, None, got)
+        src = part_src.get((m.name, fname))
+        if src:
+            c['source_reduced'] = m.prelude + '\n' + src + '\n'
+        return c
+
+    crashed_funcs = []          # (light, m, fname, tag, ins)
+    for (light, work), m, r in zip(cases, owners, results):
+        if r[0] == 'ok':
+            handle(m, r[1])
+        elif r[0] == 'exc':
+            harness(m, r)
+        else:
+            for fname, tag, ins in work:
+                crashed_funcs.append((light, m, fname, tag, ins))
+    if not crashed_funcs:
+        return stats
+
+    counts = collections.Counter()
+    st = stats['storm']
+    crashgot = ('crash', 'crash', 0)
+
+    def klass(tag, inp):
+        return (stormkey or keyfn)(tag, inp, None, crashgot)
+
+    def saturated(tag, inp):
+        k = klass(tag, inp)
+        if counts[k] >= storm or stats['crashes'] >= max_crash_reports:
+            if k not in st['classes_saturated']:
+                st['classes_saturated'].append(k)
+            return True
+        return False
+
+    ctx.log('%d functions in crashed sweep groups: refining with crash-storm breaker (%d per class)' % (len(crashed_funcs), storm))
+    # stage A: one case per function (a child survives until a function crashes it); in waves so that saturation is seen
+    need_inputs = []
+    wave = 64
+    for i in range(0, len(crashed_funcs), wave):
+        batch = []
+        for item in crashed_funcs[i:i + wave]:
+            light, m, fname, tag, ins = item
+            if ins and saturated(tag, ins[0]):
+                st['functions_skipped'] += 1
+                st['evaluations_skipped'] += len(ins)
+            else:
+                batch.append(item)
+        if not batch:
+            continue
+        rr = runner.run_cases(e2._sweep, [(b[0], [(b[2], b[3], b[4])]) for b in batch], timeout=300, scratch=ctx.scratch)
+        single = []
+        for item, r in zip(batch, rr):
+            if r[0] == 'ok':
+                handle(item[1], r[1])
+            elif r[0] == 'exc':
+                harness(item[1], r)
+            else:
+                single.append(item)
+        # stage B: the crashing functions of this wave, input by input, until the class is saturated
+        for light, m, fname, tag, ins in single:
+            todo = list(ins)
+            while todo:
+                if saturated(tag, todo[0]):
+                    st['evaluations_skipped'] += len(todo)
+                    break
+                chunk, todo = todo[:16], todo[16:]
+                r2 = runner.run_cases(e2._sweep, [(light, [(fname, tag, [inp])]) for inp in chunk], timeout=60,
+                                      scratch=ctx.scratch)
+                for inp, r in zip(chunk, r2):
+                    if r[0] == 'ok':
+                        handle(m, r[1])
+                    elif r[0] in ('crash', 'timeout'):
+                        stats['crashes'] += 1
+                        stats['evaluations'] += 1
+                        counts[klass(tag, inp)] += 1
+                        got = ('crash', r[0], r[1])
+                        ctx.violation(keyfn(tag, inp, ('ok', ('?', '?')), got),
+                                      '%s%r: %s %s; output tail: %s' % (tag, tuple(inp), r[0], r[1], (r[2] or '')[-400:]),
+                                      crash_case(m, fname, tag, inp, got))
+                    else:
+                        harness(m, r)
+    if st['functions_skipped'] or st['evaluations_skipped']:
+        ctx.log('crash-storm breaker: %d functions / %d evaluations of saturated crash classes were not refined'
+                % (st['functions_skipped'], st['evaluations_skipped']))
+    return stats
+
+
+def storm_note(cov, stats):
+    """Put the breaker's bookkeeping into the coverage dict; a run in which it skipped work is not exhaustive."""
+    st = stats.get('storm') or {}
+    cov['crash_storm_breaker'] = st
+    if st.get('functions_skipped') or st.get('evaluations_skipped'):
+        cov['exhaustive'] = False
+        cov['exhaustive_note'] = ('crash-storm breaker: after %d crashing evaluations of one crash class the remaining functions/'
+                                  'inputs of that class in crashed sweep groups were not re-run (%d functions, %d evaluations); '
+                                  'every other evaluation was performed' % (st.get('limit_per_class', 0), st.get('functions_skipped', 0),
+                                                                            st.get('evaluations_skipped', 0)))
+    return cov
